@@ -57,7 +57,12 @@ const selectPollInterval = 2 * time.Millisecond
 // the lifecycle — a bare retry-Open returns ErrAlreadyOpen.
 func (c *connection) Open(ctx context.Context, mode OpenMode) error {
 	c.lifeMu.Lock()
-	defer c.lifeMu.Unlock()
+	locked := true
+	defer func() {
+		if locked {
+			c.lifeMu.Unlock()
+		}
+	}()
 
 	if c.tr == nil {
 		return errors.New("hsms: Open requires a non-nil transport")
@@ -177,6 +182,14 @@ func (c *connection) Open(ctx context.Context, mode OpenMode) error {
 	}
 
 	if mode == OpenWaitSelected {
+		// Release lifeMu BEFORE the wait: the wait is bounded only by the caller's ctx, and Close
+		// takes lifeMu first — holding it here would make a concurrent Close block for as long as
+		// the caller is willing to wait for Selected instead of its own close timeout. The lifecycle
+		// is fully published at this point (a second Open sees ErrAlreadyOpen), and a Close that
+		// wins tears e down, which closes e.done and ends the wait with ErrConnClosed.
+		locked = false
+		c.lifeMu.Unlock()
+
 		return c.waitSelected(ctx, e, s)
 	}
 
